@@ -600,6 +600,7 @@ void reb_simulation_save_to_stream(struct reb_simulation* r, char** bufp, size_t
         r->heartbeat ||
         r->ri_trace.S ||
         r->ri_trace.S_peri ||
+        r->pre_timestep_modifications ||
         r->post_timestep_modifications ||
         r->free_particle_ap){
         functionpointersused = 1;
